@@ -34,7 +34,10 @@ Step(A, R, a2) ==
   /\ alive' = a2
   /\ (alive /\ ~a2) => \A k \in sub' : ran'[k] = 1    \* ~ThreadPool returns only after everything submitted ran
 
-Next == \E A \in SUBSET Tasks, R \in SUBSET Tasks, a2 \in BOOLEAN : Step(A, R, a2)
+\* (A, R and a2 are determined by the step itself: written without quantifiers so that evaluating the action on a pair of
+\*  states - which is what a refinement check and a trace check do - does not enumerate SUBSET Tasks twice)
+Next == /\ sub' \subseteq Tasks /\ alive' \in BOOLEAN
+        /\ Step(sub' \ sub, {k \in Tasks : ran'[k] # ran[k]}, alive')
 
 Spec == Init /\ [][Next]_avars
 
